@@ -44,6 +44,13 @@ def _inject(fmt, ents, i, kind):
         ls = e.split("\n")
         ls[2] = "-"
         e = "\n".join(ls)
+    elif kind == "plus_del":       # the '+' line is MISSING (not just wrong): every later line moves up, the last record is short
+        ls = e.split("\n")
+        e = "\n".join(ls[:2] + ls[3:])
+    elif kind.startswith("trunc:"):  # the file ends inside record i (its last j lines are missing); the caller passes the last record
+        j = int(kind.split(":")[1])
+        ls = e.split("\n")[:-1]
+        e = "\n".join(ls[:len(ls) - j]) + "\n"
     elif kind == "nonnum":
         f = e[:-1].split("\t")
         col = {"sam": 3, "gtf": 3}.get(fmt, 1)
@@ -70,7 +77,7 @@ def _inject(fmt, ents, i, kind):
     return out
 
 
-KINDS = {"fastq": ["marker", "plus"], "fasta2line": ["marker"], "bed": ["nonnum", "ncols_more", "ncols_less", "ncols_shift"],
+KINDS = {"fastq": ["marker", "plus", "plus_del", "trunc:1", "trunc:2", "trunc:3"], "fasta2line": ["marker", "trunc:1"], "bed": ["nonnum", "ncols_more", "ncols_less", "ncols_shift"],
          "bed6": ["nonnum", "strand", "ncols_more", "ncols_less", "ncols_shift"], "vcf": ["nonnum", "ncols_less", "ncols_shift"],
          "sam": ["nonnum"], "gtf": ["nonnum", "ncols_less"], "bdg": ["nonnum", "ncols_shift"]}
 LINES = {"fastq": 4, "fasta2line": 2}
@@ -100,6 +107,8 @@ def cases(tier, rng):
                         continue        # the many non-numeric texts: every text everywhere, but fewer file sizes
                     for i in range(n):
                         if kind == "ncols_shift" and i == n - 1:
+                            continue
+                        if kind.startswith("trunc:") and i != n - 1:
                             continue
                         bad = _inject(fmt, ents, i, kind)
                         body = "".join(bad)
@@ -149,22 +158,24 @@ def cases(tier, rng):
                                     yield {"op": "read", "fmt": fmt, "header": header, "ents": bad, "i": i, "kind": "multi", "viol": [[i, ka], [j, kb]],
                                            "k": k, "gz": gz, "lazy": lazy, "nl": rng.random() < 0.8}
     # the byte-level reader used directly, and bnp.count_entries (fixed 500000-byte chunks) on a file larger than one chunk
-    for fmt, kinds in (("fastq", ["marker", "plus"]), ("fasta2line", ["marker"]), ("bed", ["ncols_more", "ncols_less"])):
+    for fmt, kinds in (("fastq", ["marker", "plus", "plus_del", "trunc:2"]), ("fasta2line", ["marker", "trunc:1"]), ("bed", ["ncols_more", "ncols_less"])):
         for n in (3, 5):
             ents, header = c01.make_entries(fmt, n, [2, 5], rng)
             for kind in kinds:
                 for i in range(n):
+                    if kind.startswith("trunc:") and i != n - 1:
+                        continue
                     bad = _inject(fmt, ents, i, kind)
                     L = len("".join(bad))
                     for k in sorted({1, 2, len(bad[0]), len(bad[0]) + 1, L // 2 + 1, L, L + 1} if big else rng.sample(sorted({1, len(bad[0]) + 1, L // 2 + 1, L + 1}), 2)):
                         for gz in (False, True):
                             yield {"op": "read", "fmt": fmt, "header": header, "ents": bad, "i": i, "kind": kind, "k": k, "gz": gz, "lazy": False,
                                    "nl": True, "via": "bare"}
-    for fmt, kind in (("fastq", "marker"), ("fastq", "plus"), ("bed", "ncols_less")):
+    for fmt, kind in (("fastq", "marker"), ("fastq", "plus"), ("bed", "ncols_less"), ("fastq", "trunc:1")):
         n = 30000 if fmt == "fastq" else 45000          # > 500000 bytes
         ents, header = c01.make_entries(fmt, 4, [5, 5], rng)
         ents = [ents[j % 4] for j in range(n)]
-        for i in ((n - 2, n // 2 + 1) if big else (n - 2,)):
+        for i in ((n - 1,) if kind.startswith("trunc:") else (n - 2, n // 2 + 1) if big else (n - 2,)):
             yield {"op": "read", "fmt": fmt, "header": header, "ents": _inject(fmt, ents, i, kind), "i": i, "kind": kind, "k": 500000, "gz": False,
                    "lazy": False, "nl": True, "via": "count"}
     # custom delimited formats with a column-name header (get_bufferclass_for_datatype): file A read with an all-text table type,
@@ -291,6 +302,8 @@ def oracle(c):
         first = min(i * n + (2 if kind == "plus" else 0) for i, kind in c["viol"])
         return {"must_error": True, "line_lo": first, "line_hi": first}
     lo, hi = c["i"] * n, c["i"] * n + n - 1
+    if c["kind"].startswith("trunc:"):
+        hi = lo          # the truncated record is named by the line it starts at
     if c["kind"].startswith("ncols"):
         # "a different number of columns" is relative to the other lines of the same buffer: the library takes the
         # first line of each buffer as the reference, so the line it names is the offending one or its successor
@@ -374,7 +387,7 @@ def model_request(c):
     mode = "carry" if c["gz"] else "seek"
     if c["fmt"] in LINES:
         return {"op": "kline_read", "n": LINES[c["fmt"]], "marker": ord("@" if c["fmt"] == "fastq" else ">"), "plus": c["fmt"] == "fastq",
-                "mode": mode, "file": data, "k": c["k"]}
+                "mode": mode, "file": data, "k": c["k"], "via": "whole" if c.get("via") == "whole" else "chunks"}
     cols = [l.count("\t") + 1 for l in body.split("\n") if l != "" or True][:body.count("\n") + (0 if body.endswith("\n") else 1)]
     if c["kind"] == "multi":
         return {"op": "delim_read", "mode": mode, "file": data, "k": c["k"], "bad": sorted({i for i, _ in c["viol"]}), "cols": cols, "colcheck": True}
@@ -392,6 +405,8 @@ def agree_model(c, got, m):
         # the property only demands *an* error for a non-numeric value; which texts the library diagnoses as a
         # FormatException (with a line) rather than another exception is not modelled
         return True
+    if isinstance(got, dict) and isinstance(m, dict) and str(got.get("err", "")).startswith("other:") and m.get("err") == "other":
+        return True       # f.read() of a file without a single complete record: "no complete entry" in both
     return core.canon(got) == core.canon(m)
 
 
